@@ -460,6 +460,8 @@ func symBinop(op token.Token, t types.Type, x, y value) value {
 			return bv("bvor")
 		case token.XOR:
 			return bv("bvxor")
+		case token.AND_NOT:
+			return &sym{e: "(bvand " + a.e + " (bvnot " + b.e + "))", k: symBV, w: like.w, gk: like.gk}
 		case token.EQL:
 			if a.e == b.e {
 				return true
@@ -539,3 +541,88 @@ func materialise(ns numstr) sstr {
 	}
 	panic(unsupported("text of a symbolic numeral >= 1000"))
 }
+
+// symShift: x << y and x >> y when at least one operand is a term. Go: the result has x's type; a count of
+// at least the width gives 0 (or the sign fill for a signed >>); a negative count panics. SMT-LIB's
+// bvshl/bvlshr/bvashr have the same saturation once the count is brought to x's width without wrapping.
+func symShift(op token.Token, x, y value) value {
+	var xs *sym
+	switch v := x.(type) {
+	case *sym:
+		xs = v
+	default:
+		gk := goKindOf(x)
+		w, _ := kindWidth(gk)
+		if w == 0 {
+			panic(unsupported("shift of a non-integer operand"))
+		}
+		xs = &sym{e: bvConst(asUint64(x), w), k: symBV, w: w, gk: gk}
+	}
+	if xs.k != symBV {
+		panic(unsupported("shift of a non-integer term"))
+	}
+	_, signed := kindWidth(xs.gk)
+	f := "bvshl"
+	if op == token.SHR {
+		f = "bvlshr"
+		if signed {
+			f = "bvashr"
+		}
+	}
+	var count string
+	switch c := y.(type) {
+	case *sym:
+		if c.k != symBV {
+			panic(unsupported("shift by a non-integer term"))
+		}
+		if _, cs := kindWidth(c.gk); cs {
+			// a negative count panics in Go
+			if cur.cond(mkBool("(bvslt " + c.e + " " + bvConst(0, c.w) + ")")) {
+				panic("runtime error: negative shift amount")
+			}
+		}
+		switch {
+		case c.w == xs.w:
+			count = c.e
+		case c.w < xs.w:
+			count = fmt.Sprintf("((_ zero_extend %d) %s)", xs.w-c.w, c.e)
+		default:
+			// a wider count: saturate instead of truncating
+			big := "(bvuge " + c.e + " " + bvConst(uint64(xs.w), c.w) + ")"
+			count = fmt.Sprintf("(ite %s %s ((_ extract %d 0) %s))", big, bvConst(uint64(xs.w), xs.w), xs.w-1, c.e)
+		}
+	default:
+		n := asInt64(y)
+		if n < 0 {
+			panic("runtime error: negative shift amount")
+		}
+		if n > int64(xs.w) {
+			n = int64(xs.w)
+		}
+		count = bvConst(uint64(n), xs.w)
+	}
+	return &sym{e: "(" + f + " " + xs.e + " " + count + ")", k: symBV, w: xs.w, gk: xs.gk}
+}
+
+// symDiv: x / y and x % y on integer terms (Go truncates towards zero and the remainder has the dividend's
+// sign, as bvsdiv / bvsrem do); a zero divisor is Go's run-time panic.
+func symDiv(op token.Token, t types.Type, x, y value) value {
+	var like *sym
+	if s, ok := x.(*sym); ok {
+		like = s
+	} else {
+		like = y.(*sym)
+	}
+	if like.k != symBV {
+		return symBinopNoDiv(op, t, x, y)
+	}
+	a, b := lift(x, like), lift(y, like)
+	if cur.cond(simplifyBool(mkBool("(= " + b.e + " " + bvConst(0, like.w) + ")"))) {
+		panic("runtime error: integer divide by zero")
+	}
+	_, signed := kindWidth(like.gk)
+	f := map[bool]map[token.Token]string{true: {token.QUO: "bvsdiv", token.REM: "bvsrem"}, false: {token.QUO: "bvudiv", token.REM: "bvurem"}}[signed][op]
+	return &sym{e: "(" + f + " " + a.e + " " + b.e + ")", k: symBV, w: like.w, gk: like.gk}
+}
+
+func symBinopNoDiv(op token.Token, t types.Type, x, y value) value { return symBinop(op, t, x, y) }
